@@ -220,7 +220,7 @@ def frobenius_units():
         def g(tu):
             f = tu.func(level + "::frobenius_map")
             n = DIM[level]
-            for k in list(range(0, 14)) + [29, 4294967295]:
+            for k in list(range(0, 26)) + [29, 35, 47, 1000002, 4294967294, 4294967295]:
                 def run(path, k=k):
                     d = RingDomain({"Fq", "BigInt<384>"}, consts=U.SHARED.get("consts"))
                     I = Interp(tu, d)
